@@ -589,8 +589,10 @@ impl<'a> KMergeIterator<'a> {
 				}
 			} else {
 				// Level 1+: Tables have non-overlapping key ranges, use binary search
+				// (For a range whose start lies above its end the two searches cross:
+				// such a range selects no table.)
 				let start_idx = level.find_first_overlapping_table(&query_range);
-				let end_idx = level.find_last_overlapping_table(&query_range);
+				let end_idx = level.find_last_overlapping_table(&query_range).max(start_idx);
 
 				for table in &level.tables[start_idx..end_idx] {
 					// Skip tables outside timestamp range (if specified)
